@@ -19,7 +19,7 @@ import (
 
 // MicroSpec selects one scenario.
 type MicroSpec struct {
-	State string   `json:"state"` // queued | inflight | expired | requeued | held2 | deferred | defexp | none
+	State string   `json:"state"` // queued | inflight | expired | requeued | held2 | deferred | defexp | ready | pausedq | tpausedq | none
 	Eph   bool     `json:"eph"`   // ephemeral topic and channel
 	MemQ  int64    `json:"memq"`
 	Ops   []string `json:"ops"`
@@ -407,6 +407,29 @@ func (x *microCtx) setup() string {
 	}
 	switch spec.State {
 	case "none":
+	case "ready":
+		// both consumers idle with RDY 1, nothing published yet
+		x.c1.Cmd("RDY 1", nil)
+		x.c2.Cmd("RDY 1", nil)
+		w.Quiesce()
+	case "pausedq", "tpausedq":
+		// a paused channel (topic) with two messages waiting and a consumer that is ready
+		x.c1.Cmd("RDY 1", nil)
+		w.Quiesce()
+		url := "/channel/pause?topic=" + x.topic + "&channel=" + x.ch
+		if spec.State == "tpausedq" {
+			url = "/topic/pause?topic=" + x.topic
+		}
+		if code, _ := w.Do("POST", url, nil); code != 200 {
+			return "setup: pause failed"
+		}
+		w.Quiesce()
+		pub("m1")
+		pub("m2")
+		w.Sleep(300 * time.Millisecond)
+		if fs := x.c1.Take(); len(fs) > 0 {
+			x.bad("C03 paused channel or topic delivered a message", "setup of %s: c1 received %v", spec.State, fs)
+		}
 	case "queued":
 		pub("m1")
 		pub("m2")
@@ -533,6 +556,8 @@ func RunMicro(spec MicroSpec) vx.Out {
 			x.anomalies = append(x.anomalies, "after window: "+structClass(s))
 		}
 		x.checkClientCounts("after window")
+		x.checkStuck("after window")
+		x.pauseProbe()
 	}
 	x.drain()
 	x.oracle()
@@ -589,6 +614,61 @@ func (x *microCtx) checkClientCounts(when string) {
 		} else if k.InFlightCount != owned[id] {
 			x.bad(fmt.Sprintf("C03 C13 C08 consumer in-flight count %+d off", k.InFlightCount-owned[id]), "%s: client %d InFlightCount=%d but channel attributes %d ids to it", when, id, k.InFlightCount, owned[id])
 		}
+	}
+}
+
+// checkStuck (C03 "delivery resumes", C01): at a quiescent point - no daemon goroutine can
+// take a step - a channel that is not paused must not hold queued messages while one of its
+// consumers is ready for more, and a topic that is not paused and has a channel must not
+// sit on messages of its own. Anything else is a lost wake-up.
+func (x *microCtx) checkStuck(when string) {
+	t := x.w.Topic(x.topic)
+	c := x.chanObj()
+	if t == nil || c == nil || t.Exiting() || c.Exiting() {
+		return
+	}
+	if !t.IsPaused() && t.Depth() > 0 {
+		x.bad("C03 C01 topic holds messages although it is not paused and has a channel", "%s: topic depth %d, paused=false, %d channel(s), everything idle", when, t.Depth(), len(t.channelMap))
+	}
+	if c.IsPaused() || c.Depth() == 0 {
+		return
+	}
+	for id, cons := range c.clients {
+		k, ok := cons.(*clientV2)
+		if !ok || k.State != stateSubscribed {
+			continue
+		}
+		if k.ReadyCount > 0 && k.InFlightCount < k.ReadyCount {
+			x.bad("C03 C01 queued message not handed to a ready consumer", "%s: channel depth %d, not paused, client %d has RDY %d and %d in flight, everything idle", when, c.Depth(), id, k.ReadyCount, k.InFlightCount)
+			return
+		}
+	}
+}
+
+// pauseProbe (C03): with the channel or the topic paused at the idle point after the
+// window, a message published now must not reach any consumer until the unpause.
+func (x *microCtx) pauseProbe() {
+	t := x.w.Topic(x.topic)
+	c := x.chanObj()
+	if t == nil || c == nil || t.Exiting() || c.Exiting() || !(t.IsPaused() || c.IsPaused()) {
+		return
+	}
+	if code, _ := x.w.Do("POST", "/pub?topic="+x.topic, b("mP")); code != 200 {
+		x.bad("C03 C10 paused topic/channel refused a publish", "POST /pub answered %d while paused", code)
+		return
+	}
+	if x.held >= 0 {
+		x.held++
+	}
+	x.w.Sleep(300 * time.Millisecond)
+	x.note()
+	for id, body := range x.delivBody {
+		if body == "mP" {
+			x.bad("C03 paused channel or topic delivered a message published after the pause", "channel paused=%v topic paused=%v at an idle point; a message published afterwards was delivered to %v", c.IsPaused(), t.IsPaused(), x.delivTo[id])
+		}
+	}
+	for id, as := range x.deliv {
+		x.postWin[id] = len(as)
 	}
 }
 
@@ -680,9 +760,9 @@ func (x *microCtx) oracle() {
 	// (a) no loss: without a discarding operation, every message that was not FIN-accepted
 	// in the window ends up delivered (and FINed) in the drain
 	if !discardOp && !spec.Eph {
-		want := map[string]int{"none": 0, "queued": 2}[spec.State]
-		if spec.State != "none" && spec.State != "queued" {
-			want = 2
+		want := 2
+		if spec.State == "none" || spec.State == "ready" {
+			want = 0
 		}
 		if hasOp("pub") && !hasOp("empty_topic") {
 			want++ // (a publish overlapping a topic empty may be discarded by it)
